@@ -74,8 +74,18 @@ def run(chk, args):
     num = 60 if q else 400
     scenarios, infos = generate(chk, ["Gen_a.cfg", "Gen_b.cfg", "Gen_c.cfg"], num, 90, "c05")
     classes = set().union(*[i["classes"] for i in infos])
-    chk.note("%d behaviours of ServerMux_Gen -> scenarios (%d carriers, %d cuts, classes %s)" % (
-        len(scenarios), sum(i["carriers"] for i in infos), sum(i["cuts"] for i in infos), sorted(classes)))
+    chk.note("%d behaviours of ServerMux_Gen -> scenarios (%d carriers, %d cuts, %d gaps, classes %s)" % (
+        len(scenarios), sum(i["carriers"] for i in infos), sum(i["cuts"] for i in infos), sum(i["gaps"] for i in infos), sorted(classes)))
+    chk.cov["gaps_shorter_than_retention"] = sum(i["gaps"] for i in infos)
+    if not q:
+        # the one real gap that is LONGER than the retention: the outgoing queue of the session expires
+        # (its packets are lost), the session itself must survive and stay one accepted connection
+        scenarios.append({"name": "c05-gap61", "seed": chk.seed, "bound_ms": 260000, "sessions": [
+            {"up": 300000, "down": 300000, "carriers": [
+                {"label": "", "ip": "192.0.2.7", "pres": "id", "fault": {"kind": "cut", "dir": "down", "cls": "body", "nth": 20}},
+                {"label": "", "ip": "2001:db8::5", "pres": "id", "delay_ms": 61000}]},
+            {"up": 100000, "down": 100000, "carriers": [{"label": "", "ip": "198.51.100.200", "pres": "id"}]}],
+            "origin": {"module": "ServerMux", "steps": [["S_Cut", [1, "downmid"]], ["S_Detach", [1]], ["S_Expire", ["A"]], ["S_Open", [2]]]}})
     if classes != CLASSES:
         chk.fail("vacuous: cut classes %s never generated" % sorted(CLASSES - classes))
     # 3. the rig
@@ -107,6 +117,7 @@ def run(chk, args):
         if r5.error:
             chk.fail("simulation of the 5-carrier plan violates %s in the model" % r5.error)
     th.join()
+    taken = {}
     for cfg, r in mc_out:
         if cfg == "error":
             raise r
@@ -115,9 +126,14 @@ def run(chk, args):
         if r.error:
             chk.fail("model check %s failed in the model alone: %s\n%s" % (cfg, r.error, r.out[-1500:]))
         if r.coverage:
-            zero = sorted(a for a, (d, t) in r.coverage.items() if t == 0 and a.startswith("S_"))
-            if zero:
-                chk.fail("vacuity: actions never taken in %s: %s" % (cfg, zero))
+            for a, (d, t) in r.coverage.items():
+                if a.startswith("S_"):
+                    taken[a] = taken.get(a, 0) + t
+    zero = sorted(a for a, t in taken.items() if t == 0)
+    if taken:
+        chk.cov["coverage_zero_actions"] = zero
+        if zero:
+            chk.fail("vacuity: actions never taken in any configuration run with -coverage: %s" % zero)
     # evidence
     nontrivial = sum(1 for n, r in results.items() if r.get("faults", 0) > 0 or len(by(scenarios, n)["sessions"]) > 1 or by(scenarios, n).get("extras"))
     chk.cov["evaluations"] = len(results)
